@@ -202,7 +202,12 @@ def _solve_exact(A, v):
 def _replay_hkl(ctx, cases, events, stats, thorough):
     from scippneutron.conversion import tof
 
-    col_scalings = [(0, 0, 0), (3, 0, -3), (-2, 1, 2), (1, 0, -1), (0, -3, 2)] if thorough else [(0, 0, 0), (3, 0, -3), (-2, 1, 2), (1, 0, -1)]
+    # column-wise powers of ten (condition numbers up to 1e6) and uniform ones: a uniformly small / large B
+    # (large / small unit cell) has a tiny / huge determinant at an unchanged condition number, so any
+    # absolute threshold on det(UB) shows up
+    col_scalings = [(0, 0, 0), (3, 0, -3), (-2, 1, 2), (1, 0, -1), (-3, -3, -3), (-4, -4, -4), (3, 3, 3)]
+    if thorough:
+        col_scalings += [(0, -3, 2), (-5, -5, -5), (-2, -3, -4)]
     two_pi = 2 * mpmath.pi
     # group by (qr, qu, B): hkl become an array
     groups = {}
